@@ -2,6 +2,7 @@ package loadbalancer
 
 import (
 	"net/http"
+	"sync/atomic"
 	"time"
 
 	"github.com/0xReLogic/Helios/internal/circuitbreaker"
@@ -234,4 +235,40 @@ func VerifC12PickVsLastEjection(strategy int) {
 	verifrt.WaitAll()
 	verifrt.Assert(got == nil || got == bs[0] || got == bs[1], "a pick racing the ejection of the last healthy backend returns a pool member or nothing")
 	verifrt.Assert(lb.findHealthyBackend(verifRequest("10.1.2.3:4711")) == nil, "with every backend inside its window no backend is dispatched to")
+}
+
+// verifHold: released by a harness to let held requests (X-Verif-Hold) finish.
+var verifHold int32
+
+// VerifC13InFlightAcrossEjection: a request is in flight at a backend while
+// that backend is ejected (by a failed probe or by other requests' failures),
+// its unhealthy window passes and it is re-admitted. All along the gauge counts
+// the request that is still in flight, and returns to zero when it completes.
+func VerifC13InFlightAcrossEjection() {
+	lb, bs := verifFullLB(0, 1, 0)
+	atomic.StoreInt32(&verifHold, 0)
+	b := bs[0]
+	mirror := func() int32 { return lb.metricsCollector.GetMetrics().BackendMetrics[b.Name].ActiveConnections }
+	verifrt.Go(func() {
+		r := verifRequest("10.1.2.3:4711")
+		r.Header.Set("X-Verif-Hold", "1")
+		r.Header.Set("X-Verif-Outcome", "200")
+		rec := verifNewRecorder()
+		verifServe(lb, rec, rec.finish, r)
+	})
+	verifrt.Settle()
+	verifrt.Assert(b.GetActiveConnections() == 1 && mirror() == 1, "the gauge counts a request that has been dispatched and has not completed")
+	lb.MarkBackendUnhealthy(b, time.Second)
+	verifrt.Advance(2 * time.Second)
+	verifrt.Assert(lb.IsBackendHealthy(b), "the backend is eligible again once its window has passed")
+	if verifrt.Bool("aRequestAfterTheRecovery") {
+		r := verifRequest("10.9.9.9:4711")
+		r.Header.Set("X-Verif-Outcome", "200")
+		rec := verifNewRecorder()
+		verifServe(lb, rec, rec.finish, r)
+	}
+	verifrt.Assert(b.GetActiveConnections() == 1 && mirror() == 1, "ejection and re-admission do not change the number of requests in flight at the backend")
+	atomic.StoreInt32(&verifHold, 1)
+	verifrt.WaitAll()
+	verifrt.Assert(b.GetActiveConnections() == 0 && mirror() == 0, "gauge and published mirror are zero at quiescence")
 }
